@@ -23,7 +23,35 @@ pub mod c19;
 pub mod fsenv;
 pub mod c20;
 
+/// work factors chosen so that a quick run takes roughly 5-15 s on 16 cores (fixed work, not a time quota)
+fn work_factor(id: &str) -> f64 {
+    match id {
+        "C01" => 10.0,
+        "C02" => 8.0,
+        "C03" => 10.0,
+        "C04" => 12.0,
+        "C05" => 20.0,
+        "C06" => 20.0,
+        "C07" => 20.0,
+        "C08" => 40.0,
+        "C09" => 15.0,
+        "C10" => 40.0,
+        "C11" => 40.0,
+        "C12" => 20.0,
+        "C13" => 12.0,
+        "C14" => 20.0,
+        "C15" => 40.0,
+        "C16" => 30.0,
+        "C17" => 3.0,
+        "C18" => 2.5,
+        "C19" => 8.0,
+        "C20" => 20.0,
+        _ => 1.0,
+    }
+}
+
 pub fn dispatch(r: &mut Runner) -> bool {
+    r.factor = work_factor(&r.id);
     match r.id.as_str() {
         "C01" => c01::run(r),
         "C02" => c02::run(r),
